@@ -106,6 +106,12 @@ func (ctx *Context) Parse(value string) error {
 		return err
 	}
 
+	if p.cur.data.codeOverflow {
+		// 超出的指令已被丢弃，不能执行被截断的程序
+		ctx.Error = errors.New("E1:指令虚拟机栈溢出，请不要发送过长的指令")
+		return ctx.Error
+	}
+
 	ctx.code = p.cur.data.code
 	ctx.codeIndex = p.cur.data.codeIndex
 
